@@ -3,7 +3,7 @@
    *IDN? and disconnects on any number of connections; d over every directory content. *)
 From Coq Require Import List Arith ZArith Bool NArith Lia.
 Import ListNotations.
-Require Import FV.Gen.C20 FV.C20.Model FV.C20.ConcModel FV.C20.Lemmas FV.C20.LemmasRot FV.C20.LemmasConc FV.C20.LemmasProg FV.C20.LemmasEmit.
+Require Import FV.Gen.C20 FV.C20.Model FV.C20.ConcModel FV.C20.Lemmas FV.C20.LemmasRot FV.C20.LemmasConc FV.C20.LemmasProg FV.C20.LemmasEmit FV.C20.LemmasNode.
 
 (* obligations on the facts regenerated from /repo (Gen/C20.v) *)
 Theorem C20_source_facts :
@@ -47,6 +47,51 @@ Theorem C20_stop_ways : forall mods m c,
 Proof.
   intros mods m c M. split; [apply silences_ident; auto|]. split; [apply silences_disconnect; auto|].
   intros; apply silences_off; auto.
+Qed.
+
+(* A stop covers EVERY module.  nd: ANY node, a list of (module, export flag) -- exported modules, internal ones
+   (export = False: not in the description, but `logging <name> <level>` accepts them, C20_internal_module_can_be_enabled)
+   in any mix; o: *IDN? of c, disconnect of c, or a logging request of c addressing all modules (None, '', '.') with any
+   spelling of the level off; ops1 / ops2: ANY history before / after in which c sends no new logging request afterwards.
+   Then for every module name m -- exported, internal, or no module of the node at all -- connection c is subscribed to
+   nothing and receives no record of any level.  (Holds because set_all_log_levels ranges over secnode.modules without a
+   filter: obligation set_all_iterates_all_modules of C20_source_facts; C20_exported_only_stop_keeps_subscription shows what
+   happens otherwise.) *)
+Theorem C20_stop_covers_every_module : forall (nd : node) ops1 o ops2 c,
+  stops_all o c ->
+  (forall o', In o' ops2 -> is_logging_by c o' = false) ->
+  forall m,
+    chosen (run_node nd (ops1 ++ o :: ops2)) m c = None /\
+    forall lv py, deliv_to c (handle (run_node nd (ops1 ++ o :: ops2)) m lv py) = [].
+Proof. intros; apply stop_covers_every_module; assumption. Qed.
+
+(* non-vacuity for internal modules, for all histories: a request naming an internal module with a valid level is accepted
+   and subscribes the connection *)
+Theorem C20_internal_module_can_be_enabled : forall (nd : node) ops c m d lv,
+  In (m, false) nd -> is_all (Some m) = false -> check_level d = inl lv -> lv <> OFF ->
+  chosen (run_node nd (ops ++ [OLogging c (Some m) d])) m c = Some lv.
+Proof. intros; eapply internal_module_can_be_enabled; eauto. Qed.
+
+(* Why `set_all_iterates_all_modules` is an obligation: the VARIANT in which the "all modules" operations (logging . <level>,
+   the reset of *IDN? and disconnect) range over the exported modules only (LemmasNode.step_exported_only) is the same
+   function on every node without internal modules -- no test on such a node can tell -- but there is a node and a history
+   after which a connection that re-identified / switched everything off / disconnected is still subscribed to an internal
+   module and keeps receiving its records. *)
+Definition m_hidden : name := [104; 105; 100]%N.
+Definition demo_node : node := [([109; 48]%N, true); (m_hidden, false)].
+Theorem C20_exported_only_stop_keeps_subscription :
+  (forall nd ops, forallb snd nd = true -> run_exported_only nd ops = run_node nd ops) /\
+  (forall stop, In stop [OIdent 0; ODisconnect 0; OLogging 0 (Some [46%N]) (LStr s_off)] ->
+     stops_all stop 0 /\
+     let ops := [OLogging 0 (Some m_hidden) (LStr s_debug); stop] in
+     handle (run_exported_only demo_node ops) m_hidden 20%Z s_info = [(0, m_hidden, s_info)] /\
+     handle (run_node demo_node ops) m_hidden 20%Z s_info = []).
+Proof.
+  split; [intros; apply exported_only_same; assumption|].
+  intros stop [E|[E|[E|[]]]]; subst stop; (split; [|vm_compute; auto]).
+  - left; reflexivity.
+  - right; left; reflexivity.
+  - right; right. exists (Some [46%N]), (LStr s_off). repeat split; reflexivity.
 Qed.
 
 (* Other connections are unaffected: what c' receives over a whole history is what it receives in the history from
@@ -307,6 +352,9 @@ Print Assumptions C20_routing_exact.
 Print Assumptions C20_routing.
 Print Assumptions C20_stop.
 Print Assumptions C20_stop_ways.
+Print Assumptions C20_stop_covers_every_module.
+Print Assumptions C20_internal_module_can_be_enabled.
+Print Assumptions C20_exported_only_stop_keeps_subscription.
 Print Assumptions C20_others_unaffected.
 Print Assumptions C20_rejected_request_no_effect.
 Print Assumptions C20_routing_linearizable.
